@@ -45,8 +45,11 @@ def _slice_indices(sl, n, i):
 
 
 def _iter_sets(loop_iter, n, i):
-    """Index sequence iterated by `for x in <expr over self.blocks>`."""
+    """Index sequence iterated by `for x in <expr over self.blocks>`.  For a pairwise walk `zip(S, S[1:])` (previous, current) the
+    sequence of the CURRENT element (the last component)."""
     e = loop_iter
+    if isinstance(e, ast.Call) and callee_attr(e) == "zip" and len(e.args) >= 2:
+        return _iter_sets(e.args[-1], n, i)
     rev = False
     if isinstance(e, ast.Call) and callee_attr(e) == "reversed" and e.args:
         rev = True
@@ -71,7 +74,7 @@ def _iter_sets(loop_iter, n, i):
 
 def run(ck):
     m = ck.repo.mod(REL)
-    ck.rule("R1", "the loops before/after the pinned block partition the chain; the backward loop carries its offset", floor=3)
+    ck.rule("R1", "the loops before/after the pinned block partition the chain; the backward loop carries its offset", floor=1)
     ck.rule("R2", "each emitted instruction is tested against the accumulated output before being added", floor=1)
     ck.rule("R3", "a pinned chain outside the destination interval is rejected", floor=1)
     ck.rule("R4", "the forward placement loop advances by each block's size", floor=1)
@@ -111,36 +114,66 @@ def run(ck):
         ck.ob("R1", "%s:partition" % q, bad is None, m.where(fn),
               "" if bad is None else "for a chain of %d blocks pinned at index %d the loops visit %s then %s; the blocks before the "
               "pinned one are %s (nearest first) and those after it %s" % bad)
+    # fix_blocks: the two placement loops, stated on the sequential state of one iteration (sa/normal.state_after): whatever the
+    # temporaries (new_offset / in-place -=), the offset handed to fix_loc_offset for a block B and the running offset left for the
+    # next iteration are, as expressions of the running offset v at the start of the iteration:
+    #   backward:  placed = (v - B.size) - (v - B.size) % B.alignment          next v = placed
+    #   forward :  placed = v + (-v) % L.alignment   (L the previous block)    next v = placed + B.size
+    from sa.normal import state_after
+    from sa.astutil import Resolver as _Rs2, clone as _clone
     fn = m.func("BlockChain.fix_blocks")
-    loops = [n for n in walk_body(fn) if isinstance(n, ast.For) and "self.blocks" in norm(n.iter) and IDX in norm(n.iter)]
-    back = loops[0]
-    # the variable the placement is computed from must be reassigned in the loop body (running offset)
-    reads = set()
-    for n in walk_local(ast.Module(body=back.body, type_ignores=[])):
-        if isinstance(n, ast.Assign) and isinstance(n.value, ast.BinOp) and isinstance(n.value.op, ast.Sub) and "size" in norm(n.value.right):
-            reads |= set(x.id for x in walk_local(n.value.left) if isinstance(x, ast.Name))
-    assigned = set(t.id for n in walk_local(ast.Module(body=back.body, type_ignores=[])) if isinstance(n, ast.Assign)
-                   for t in n.targets if isinstance(t, ast.Name))
-    carried = reads & assigned
-    ck.ob("R1", "BlockChain.fix_blocks:backward-running-offset", bool(reads) and bool(carried), m.where(back),
-          "the backward loop computes every block's offset from `%s`, which it never updates: two blocks before the pinned one overlap"
-          % ", ".join(sorted(reads)))
-    # ... and the step is the block's own (final) size, as in the forward loop: the reserved room (max_size plus padding) is what
-    # place() budgets with, not where fix_blocks puts the block
-    tgt_b = norm(back.target)
-    steps = [n.value for n in walk_local(ast.Module(body=back.body, type_ignores=[])) if isinstance(n, ast.Assign) and isinstance(n.value, ast.BinOp)
-             and isinstance(n.value.op, ast.Sub) and any(isinstance(x, ast.Name) and x.id in carried for x in walk_local(n.value.left))
-             and tgt_b in [x.id for x in ast.walk(n.value.right) if isinstance(x, ast.Name)]] + \
-            [n.value for n in walk_local(ast.Module(body=back.body, type_ignores=[])) if isinstance(n, ast.AugAssign) and isinstance(n.op, ast.Sub)
-             and norm(n.target) in carried and tgt_b in [x.id for x in ast.walk(n.value) if isinstance(x, ast.Name)]]
-    step_txt = [norm(v.right) if isinstance(v, ast.BinOp) else norm(v) for v in steps]
-    ck.ob("R4", "BlockChain.fix_blocks:backward-step", bool(steps) and all(t == "%s.size" % tgt_b for t in step_txt), m.where(back),
-          "the backward loop steps by `%s`; a block placed before the pinned one ends where the next one starts only if the step is its size `%s.size`"
-          % (", ".join(step_txt) or "nothing", tgt_b))
-    fwd = loops[1]
-    ok = any(isinstance(n, ast.AugAssign) and isinstance(n.op, ast.Add) and norm(n.value) == "%s.size" % norm(fwd.target)
-             for n in walk_local(ast.Module(body=fwd.body, type_ignores=[])))
-    ck.ob("R4", "BlockChain.fix_blocks:forward-advance", ok, m.where(fwd), "the forward loop does not advance the offset by the block's size")
+    rs2 = _Rs2(fn)
+    loops = [n for n in walk_body(fn) if isinstance(n, ast.For) and "self.blocks" in norm(rs2.expand_node(n.iter)) and IDX in norm(rs2.expand_node(n.iter))]
+    ck.need(len(loops) == 2, "BlockChain.fix_blocks: expected a backward and a forward loop around the pinned index, found %d" % len(loops))
+
+    def iteration(lp):
+        """(block variable, previous-block variable or None, placed expression text, {name: final expression text})"""
+        tgt = lp.target
+        prev = None
+        if isinstance(tgt, ast.Tuple) and len(tgt.elts) == 2:
+            prev, blk = norm(tgt.elts[0]), norm(tgt.elts[1])
+        else:
+            blk = norm(tgt)
+        placed = None
+        upto = []
+        for st in lp.body:
+            call = st.value if isinstance(st, ast.Expr) and isinstance(st.value, ast.Call) and norm(st.value.func) == "fix_loc_offset" else None
+            if call is not None and len(call.args) >= 3:
+                env = state_after(upto)
+
+                class T(ast.NodeTransformer):
+                    def visit_Name(self, n_):
+                        return _clone(env[n_.id]) if (isinstance(n_.ctx, ast.Load) and n_.id in env) else n_
+                placed = norm(T().visit(_clone(call.args[2]))).replace(" ", "")
+            upto.append(st)
+        final = dict((k, norm(v).replace(" ", "")) for k, v in state_after(lp.body).items() if isinstance(v, ast.AST))
+        return blk, prev, placed, final
+    back, fwd = loops[0], loops[1]
+    blk, _prev, placed, final = iteration(back)
+    vs = [v for v in final if placed is not None and v in placed.replace(blk, "")] if placed else []
+    import re as _re2
+    mm = _re2.match(r"^\(?(\w+)-%s\.size\)?-\(\1-%s\.size\)%%%s\.alignment$" % (blk, blk, blk), placed or "")
+    okp = mm is not None
+    v = mm.group(1) if mm else None
+    ck.ob("R4", "BlockChain.fix_blocks:backward-step", okp, m.where(back),
+          "a block before the pinned one is placed at `%s`; it must be (v - %s.size) rounded down to %s.alignment, v being the running offset"
+          % (placed, blk, blk))
+    carried = v is not None and final.get(v) == placed
+    ck.ob("R1", "BlockChain.fix_blocks:backward-running-offset", carried, m.where(back),
+          "after placing a block the running offset `%s` is left at `%s` instead of the block's own offset `%s`: the next block before it "
+          "overlaps" % (v, final.get(v) if v else None, placed))
+    blk, prev, placed, final = iteration(fwd)
+    if prev is None:
+        # the previous block kept in a local updated at the end of the iteration (`last_block = block`)
+        prevs = [k for k, val in final.items() if val == blk and k != blk]
+        prev = prevs[0] if prevs else None
+    mm = _re2.match(r"^(\w+)\+-\1%%%s\.alignment$" % _re2.escape(prev or "?"), (placed or "").replace("(-", "-").replace(")%", "%")) if placed else None
+    v = mm.group(1) if mm else None
+    ck.ob("R4", "BlockChain.fix_blocks:forward-padding", mm is not None, m.where(fwd),
+          "a block after the pinned one is placed at `%s`; it must be v + (-v) %% <previous block>.alignment" % placed)
+    adv = v is not None and final.get(v, "").replace("(", "").replace(")", "") == ((placed or "") + "+%s.size" % blk).replace("(", "").replace(")", "")
+    ck.ob("R4", "BlockChain.fix_blocks:forward-advance", adv, m.where(fwd),
+          "the forward loop leaves the running offset at `%s`; it must be the block's offset plus %s.size" % (final.get(v) if v else None, blk))
 
     # ---------------------------------------------------------------- R6 placement scans one list sorted by address
     ck.rule("R6", "free chains are placed between neighbours of ONE list - pinned chains and forbidden-interval wedges together - sorted by offset_min", floor=1)
@@ -233,7 +266,7 @@ def _rework_rules(ck):
     because every block was registered under its own loc_key on every path of the table-building loop) and so is every block using
     it; the outer loop stops only on an empty worklist and drains the worklist through assemble_block."""
     from sa.pathob import undischarged, path_text
-    ck.rule("R5", "asmblock_final re-assembles a block when it moves and when a label it references moves, until nothing is left", floor=4)
+    ck.rule("R5", "asmblock_final re-assembles a block when it moves and when a label it references moves, until nothing is left", floor=2)
     m = ck.repo.mod(REL)
     fn = m.func("asmblock_final")
     cfg = CFG(fn)
